@@ -9,7 +9,7 @@ Open Scope N_scope.
 (** the thread saw waits = 1 when it incremented and has not decremented yet *)
 Definition tokc (c : crec) : bool :=
   match k_pc c with
-  | PLoad 1 | PBg | PSyncW | PSyncR _ | PDecr true => true
+  | PLoad 1 | PBg | PSyncW | PSyncR _ | PDecr true | PBgAfter => true
   | _ => false
   end.
 Definition tokk (k : kpc) : bool :=
@@ -31,11 +31,8 @@ Record InvA (s : pstate) : Prop := mkInvA {
   a_tok2 : forall t u, tokk (p_closers s t) = true -> tokk (p_closers s u) = true -> t = u;
   a_tok3 : forall t u, tokc (p_calls s t) = true -> tokk (p_closers s u) = true -> False;
   a_n1 : p_bg s = false -> forall t, k_comp (p_calls s t) = false /\ k_pc (p_calls s t) <> PGot /\ k_drain (p_calls s t) <> DGot;
-  a_n2 : forall t, k_pc (p_calls s t) = PErr \/ k_pc (p_calls s t) = PDecr false -> st_closed s;
+  a_n2 : forall t, k_pc (p_calls s t) = PErr -> st_closed s;
   a_n3 : forall t, match p_closers s t with K2 _ _ | KWait _ | K5 => True | _ => False end -> st_closed s;
-  a_ba : (exists t, k_pc (p_calls s t) = PBgAfter) -> p_bg s = false ->
-         (p_st s = 0 -> (forall t, tokc (p_calls s t) = false) /\ (forall t, tokk (p_closers s t) = false) /\ (1 <= hsum s)%nat) /\
-         (forall t, sync_user (p_calls s t) = false);
   a_e2 : p_bg s = true -> forall t, sync_user (p_calls s t) = false;
   a_dr : forall t, k_drain (p_calls s t) <> DNone -> k_pc (p_calls s t) = PRet
 }.
@@ -91,9 +88,8 @@ Proof.
   - intros t u H; discriminate.
   - intros t u H; discriminate.
   - intros _ t. repeat split; discriminate.
-  - intros t [H|H]; discriminate.
+  - intros t H; discriminate.
   - intros t [].
-  - intros [t H]; discriminate.
   - discriminate.
   - intros t H. contradiction.
 Qed.
@@ -136,9 +132,6 @@ Proof.
   - intros t u. rewrite Etok. eauto.
   - intros Hb t. rewrite Epc, Edr, (e10 Hb). auto.
   - intros t. rewrite Epc. eauto.
-  - intros [t Ht] Hb. rewrite Epc in Ht. destruct (a_ba0 (ex_intro _ t Ht) Hb) as [A B]. split.
-    + intros H0. destruct (A H0) as (A1&A2&A3). repeat split; auto. intros u. rewrite Etok. auto.
-    + intros u. rewrite Esy. auto.
   - intros Hb t. rewrite Esy. auto.
   - intros t. rewrite Epc, Edr. auto.
 Qed.
@@ -182,13 +175,12 @@ Section CallStep.
     holds c' = holds c ->
     (tokc c' = true -> tokc c = true) ->
     (p_bg s = false -> k_comp c' = false /\ k_pc c' <> PGot /\ k_drain c' <> DGot) ->
-    (k_pc c' = PErr \/ k_pc c' = PDecr false -> st_closed s) ->
-    (k_pc c' = PBgAfter -> k_pc c = PBgAfter) ->
+    (k_pc c' = PErr -> st_closed s) ->
     (sync_user c' = true -> sync_user c = true \/ (p_st s = 0 /\ tokc c = true)) ->
     (k_drain c' <> DNone -> k_pc c' = PRet) ->
     InvA s'.
   Proof.
-    intros e_waits Hh Htok Hn1 Hn2 Hba Hsy Hdr.
+    intros e_waits Hh Htok Hn1 Hn2 Hsy Hdr.
     assert (Hs : hsum s' = hsum s).
     { pose proof (hsum_upd_call s s' t c' I Hin e_tids e_ktids e_closers e_calls). fold c in H. lia. }
     destruct I. constructor; unfold st_closed in *; rewrite ?e_tids, ?e_ktids, ?e_closers, ?e_st, ?e_bg, ?e_w, ?e_b, ?e_waits, ?Hs; auto.
@@ -202,18 +194,6 @@ Section CallStep.
       + rewrite calls_o in Hu by assumption. eauto.
     - intros Hb u. destruct (N.eq_dec u t) as [->|Nu]; [rewrite calls_t; auto|rewrite calls_o by assumption; auto].
     - intros u Hu. destruct (N.eq_dec u t) as [->|Nu]; [rewrite calls_t in Hu; auto|rewrite calls_o in Hu by assumption; eauto].
-    - intros [u Hu] Hb.
-      assert (Hex : exists v, k_pc (p_calls s v) = PBgAfter).
-      { destruct (N.eq_dec u t) as [->|Nu]; [rewrite calls_t in Hu; exists t; auto|rewrite calls_o in Hu by assumption; eauto]. }
-      destruct (a_ba0 Hex Hb) as [A B]. split.
-      + intros H0. destruct (A H0) as (A1&A2&A3). repeat split; auto.
-        intros v. destruct (N.eq_dec v t) as [->|Nv]; [rewrite calls_t|rewrite calls_o by assumption; auto].
-        destruct (tokc c') eqn:E; [|reflexivity]. rewrite <- (A1 t). symmetry. auto.
-      + intros v. destruct (N.eq_dec v t) as [->|Nv]; [rewrite calls_t|rewrite calls_o by assumption; auto].
-        destruct (sync_user c') eqn:E; [|reflexivity].
-        destruct (Hsy eq_refl) as [H1|[H1 H2]].
-        * rewrite <- (B t). symmetry. exact H1.
-        * destruct (A H1) as (A1&_). rewrite <- (A1 t). symmetry. exact H2.
     - intros Hb v. destruct (N.eq_dec v t) as [->|Nv]; [rewrite calls_t|rewrite calls_o by assumption; auto].
       destruct (sync_user c') eqn:E; [|reflexivity].
       destruct (Hsy eq_refl) as [H1|[H1 H2]].
@@ -228,13 +208,11 @@ Section CallStep.
     (S (holds c') = holds c)%nat ->
     tokc c' = false -> sync_user c' = false ->
     (p_bg s = false -> k_comp c' = false /\ k_pc c' <> PGot /\ k_drain c' <> DGot) ->
-    (k_pc c' = PErr \/ k_pc c' = PDecr false -> False) ->
-    (k_pc c' = PBgAfter -> False) ->
-    (p_bg s = false -> p_st s = 0 -> (exists u, k_pc (p_calls s u) = PBgAfter) -> False) ->
+    (k_pc c' = PErr -> False) ->
     (k_drain c' <> DNone -> k_pc c' = PRet) ->
     InvA s'.
   Proof.
-    intros e_waits Hh Htok Hsy Hn1 Hn2 Hba Hdec Hdr.
+    intros e_waits Hh Htok Hsy Hn1 Hn2 Hdr.
     assert (Hs : S (hsum s') = hsum s).
     { pose proof (hsum_upd_call s s' t c' I Hin e_tids e_ktids e_closers e_calls). fold c in H. lia. }
     pose proof (a_count s I) as Hc.
@@ -250,12 +228,6 @@ Section CallStep.
       + rewrite calls_o in Hu by assumption. eauto.
     - intros Hb u. destruct (N.eq_dec u t) as [->|Nu]; [rewrite calls_t; auto|rewrite calls_o by assumption; auto].
     - intros u Hu. destruct (N.eq_dec u t) as [->|Nu]; [rewrite calls_t in Hu; exfalso; auto|rewrite calls_o in Hu by assumption; eauto].
-    - intros [u Hu] Hb.
-      assert (Hex : exists v, k_pc (p_calls s v) = PBgAfter).
-      { destruct (N.eq_dec u t) as [->|Nu]; [rewrite calls_t in Hu; exfalso; auto|rewrite calls_o in Hu by assumption; eauto]. }
-      destruct (a_ba0 Hex Hb) as [A B]. split.
-      + intros H0. exfalso. eapply Hdec; eauto.
-      + intros v. destruct (N.eq_dec v t) as [->|Nv]; [rewrite calls_t; auto|rewrite calls_o by assumption; auto].
     - intros Hb v. destruct (N.eq_dec v t) as [->|Nv]; [rewrite calls_t; auto|rewrite calls_o by assumption; auto].
     - intros u. destruct (N.eq_dec u t) as [->|Nu]; [rewrite calls_t; auto|rewrite calls_o by assumption; auto].
   Qed.
@@ -296,8 +268,6 @@ Proof.
   - intros Hb. destruct (N.eqb (p_st s) 1) eqn:E1; [discriminate|]. auto.
   - intros t Ht. apply Hcl. eauto.
   - intros t Ht. apply Hcl. eauto.
-  - intros Hex Hb. destruct (a_ba0 Hex Hb) as [A B]. split; [|assumption].
-    destruct (N.eqb (p_st s) 1) eqn:E1; [discriminate|]. assumption.
 Qed.
 
 Lemma in_tids_pc s t : InvA s -> k_pc (p_calls s t) <> PIdle -> In t (p_tids s).
@@ -350,7 +320,6 @@ Ltac fin I t Epc :=
 
 Section Steps.
   Variable g : config.
-  Hypothesis Hg : g_kind g = Ring \/ g_putfail0 g = false.
 
   Lemma step_LCtxDone s t s' : InvA s -> pstep g s (LCtxDone t) = Some s' -> InvA s'.
   Proof.
@@ -414,7 +383,6 @@ Section Steps.
     assert (Hin : In t (p_tids s)) by (apply in_tids_pc; [assumption|congruence]).
     inversion H; subst; clear H.
     call_same s t (with_pc (with_res (p_calls s t) (errs_for (p_calls s t) (the_err s))) (PDecr false)); fin I t Epc.
-    intros _. apply (a_n2 s I t). now left.
   Qed.
 
   Lemma step_LPut s t s' : InvA s -> pstep g s (LPut t) = Some s' -> InvA s'.
@@ -512,13 +480,13 @@ Section Steps.
     assert (Hin : In t (p_tids s)) by (apply in_tids_pc; [assumption|congruence]).
     inversion H; subst; clear H.
     assert (Hns : forall u, sync_user (p_calls s u) = false).
-    { destruct (p_bg s) eqn:Eb; [apply (a_e2 s I Eb)|]. apply (a_ba s I); [eauto|assumption]. }
+    { apply (tok_no_sync_other s t I); unfold tokc, sync_user; now rewrite Epc. }
     assert (I1 : InvA (do_background s)) by (apply inva_do_background; assumption).
     assert (Ec : p_calls (do_background s) = p_calls s) by (unfold do_background; destruct (p_bg s); reflexivity).
     assert (Et : p_tids (do_background s) = p_tids s) by (unfold do_background; destruct (p_bg s); reflexivity).
     assert (Epc1 : k_pc (p_calls (do_background s) t) = PBgAfter) by (now rewrite Ec).
     rewrite <- Ec.
-    call_same (do_background s) t (with_ret (p_calls (do_background s) t) (k_res (p_calls (do_background s) t)));
+    call_same (do_background s) t (with_pc (p_calls (do_background s) t) (PDecr false));
       try (now rewrite Et); fin I1 t Epc1.
   Qed.
 
@@ -556,28 +524,20 @@ Section Steps.
     - change (S (p_waits s) = hsum s'). lia.
     - intros u v Hu Hv. destruct (N.eq_dec u t) as [->|Nu]; destruct (N.eq_dec v t) as [->|Nv]; auto.
       + rewrite Et in Hu. rewrite Eo in Hv by assumption.
-        destruct (hsum_zero_notok s (mkInvA _ a_nodup0 a_knodup0 a_disj0 a_idle0 a_kidle0 a_count0 a_st0 a_bgst0 a_bgw0 a_tok4 a_tok5 a_tok6 a_n4 a_n5 a_n6 a_ba0 a_e3 a_dr0) (Htok Hu)) as [K _].
+        destruct (hsum_zero_notok s (mkInvA _ a_nodup0 a_knodup0 a_disj0 a_idle0 a_kidle0 a_count0 a_st0 a_bgst0 a_bgw0 a_tok4 a_tok5 a_tok6 a_n4 a_n5 a_n6 a_e3 a_dr0) (Htok Hu)) as [K _].
         rewrite K in Hv. discriminate.
       + rewrite Et in Hv. rewrite Eo in Hu by assumption.
-        destruct (hsum_zero_notok s (mkInvA _ a_nodup0 a_knodup0 a_disj0 a_idle0 a_kidle0 a_count0 a_st0 a_bgst0 a_bgw0 a_tok4 a_tok5 a_tok6 a_n4 a_n5 a_n6 a_ba0 a_e3 a_dr0) (Htok Hv)) as [K _].
+        destruct (hsum_zero_notok s (mkInvA _ a_nodup0 a_knodup0 a_disj0 a_idle0 a_kidle0 a_count0 a_st0 a_bgst0 a_bgw0 a_tok4 a_tok5 a_tok6 a_n4 a_n5 a_n6 a_e3 a_dr0) (Htok Hv)) as [K _].
         rewrite K in Hu. discriminate.
       + rewrite Eo in Hu, Hv by assumption. auto.
     - intros u v Hu Hv. destruct (N.eq_dec u t) as [->|Nu].
       + rewrite Et in Hu.
-        destruct (hsum_zero_notok s (mkInvA _ a_nodup0 a_knodup0 a_disj0 a_idle0 a_kidle0 a_count0 a_st0 a_bgst0 a_bgw0 a_tok4 a_tok5 a_tok6 a_n4 a_n5 a_n6 a_ba0 a_e3 a_dr0) (Htok Hu)) as [_ K].
+        destruct (hsum_zero_notok s (mkInvA _ a_nodup0 a_knodup0 a_disj0 a_idle0 a_kidle0 a_count0 a_st0 a_bgst0 a_bgw0 a_tok4 a_tok5 a_tok6 a_n4 a_n5 a_n6 a_e3 a_dr0) (Htok Hu)) as [_ K].
         rewrite K in Hv. discriminate.
       + rewrite Eo in Hu by assumption. eauto.
     - intros Hb u. destruct (N.eq_dec u t) as [->|Nu]; [rewrite Et|rewrite Eo by assumption; auto].
       destruct (a_n4 Hb t) as (?&?&?). unfold c'; cbn. repeat split; auto; discriminate.
-    - intros u Hu. destruct (N.eq_dec u t) as [->|Nu]; [rewrite Et in Hu; cbn in Hu; destruct Hu; discriminate|rewrite Eo in Hu by assumption; eauto].
-    - intros [u Hu] Hb.
-      assert (Hex : exists v, k_pc (p_calls s v) = PBgAfter).
-      { destruct (N.eq_dec u t) as [->|Nu]; [rewrite Et in Hu; discriminate|rewrite Eo in Hu by assumption; eauto]. }
-      destruct (a_ba0 Hex Hb) as [A B]. split.
-      + intros H0. destruct (A H0) as (A1&A2&A3). repeat split; auto; [|change (1 <= hsum s')%nat; lia].
-        intros v. destruct (N.eq_dec v t) as [->|Nv]; [rewrite Et|rewrite Eo by assumption; auto].
-        destruct (tokc c') eqn:E; [|reflexivity]. pose proof (Htok eq_refl). lia.
-      + intros v. destruct (N.eq_dec v t) as [->|Nv]; [rewrite Et; reflexivity|rewrite Eo by assumption; auto].
+    - intros u Hu. destruct (N.eq_dec u t) as [->|Nu]; [rewrite Et in Hu; cbn in Hu; discriminate|rewrite Eo in Hu by assumption; eauto].
     - intros Hb v. destruct (N.eq_dec v t) as [->|Nv]; [rewrite Et; reflexivity|rewrite Eo by assumption; auto].
     - intros u. destruct (N.eq_dec u t) as [->|Nu]; [rewrite Et; cbn; rewrite Hd; contradiction|rewrite Eo by assumption; auto].
   Qed.
@@ -640,10 +600,8 @@ Section Steps.
     intros I H. cbn [pstep] in H.
     destruct (k_pc (p_calls s t)) eqn:Epc; try discriminate.
     destruct (g_kind g) eqn:Ek; [discriminate|].
-    destruct (k_done (p_calls s t) && k_ctxput (p_calls s t) && (g_putfail0 g || negb (N.eqb (p_st s) 0))) eqn:G; [|discriminate].
-    apply andb_true_iff in G as [_ G].
-    assert (Hst : p_st s <> 0).
-    { destruct Hg as [K|K]; [congruence|]. rewrite K in G. cbn in G. apply negb_true_iff, N.eqb_neq in G. assumption. }
+    destruct (k_done (p_calls s t) && k_ctxput (p_calls s t)) eqn:G; [|discriminate].
+    clear G.
     assert (Hin : In t (p_tids s)) by (apply in_tids_pc; [assumption|congruence]).
     assert (Hd : k_drain (p_calls s t) = DNone) by (apply drain_none; [assumption|congruence]).
     assert (Hw : (1 <= p_waits s)%nat).
@@ -651,7 +609,6 @@ Section Steps.
     inversion H; subst; clear H.
     call_dec s t (with_ret (p_calls s t) (errs_for (p_calls s t) ECtx)); fin I t Epc.
     all: rewrite ?Hd; try lia; try reflexivity.
-    all: try (intros _ K _; contradiction).
   Qed.
 
   Lemma step_LDecr s t s' : InvA s -> pstep g s (LDecr t) = Some s' -> InvA s'.
@@ -661,50 +618,14 @@ Section Steps.
     assert (Hin : In t (p_tids s)) by (apply in_tids_pc; [assumption|congruence]).
     assert (Hd : k_drain (p_calls s t) = DNone) by (apply drain_none; [assumption|congruence]).
     assert (Hw : (1 <= p_waits s)%nat) by (apply (waits_pos s t I Hin); unfold holds; rewrite Epc; lia).
-    destruct (st0 && negb (Nat.eqb (pred (p_waits s)) 0)) eqn:G.
-    - (* left <> 0 after a synchronous call: background() comes next *)
-      apply andb_true_iff in G as [-> G]. apply negb_true_iff, Nat.eqb_neq in G.
+    destruct (st0 && negb (Nat.eqb (p_waits s) 1)) eqn:G.
+    - (* others are counted after a synchronous call: background() comes next, the count is kept *)
+      apply andb_true_iff in G as [-> G].
       inversion H; subst; clear H.
-      set (c' := with_pc (p_calls s t) PBgAfter).
-      set (s' := set_call (set_waits s (pred (p_waits s))) t c').
-      assert (Htok : tokc (p_calls s t) = true) by (unfold tokc; now rewrite Epc).
-      assert (Hs : S (hsum s') = hsum s).
-      { assert (H1 : holds c' = 0%nat) by (unfold holds, c'; cbn; now rewrite Hd).
-        assert (H0 : holds (p_calls s t) = 1%nat) by (unfold holds; now rewrite Epc, Hd).
-        pose proof (hsum_upd_call s s' t c' I Hin eq_refl eq_refl eq_refl (fun u => eq_refl)) as K.
-        rewrite H1, H0 in K. lia. }
-      assert (Eo : forall u, u <> t -> p_calls s' u = p_calls s u) by (intros u Hu; cbn; now apply upd_other).
-      assert (Et : p_calls s' t = c') by (cbn; apply upd_same).
-      pose proof (a_count s I) as Hc.
-      assert (Hnt : forall u, u <> t -> tokc (p_calls s u) = false).
-      { intros u Hu. destruct (tokc (p_calls s u)) eqn:E; [|reflexivity]. exfalso. apply Hu. apply (a_tok1 s I); assumption. }
-      assert (Hnk : forall u, tokk (p_closers s u) = false).
-      { intros u. destruct (tokk (p_closers s u)) eqn:E; [|reflexivity]. exfalso. apply (a_tok3 s I t u); assumption. }
-      destruct I. constructor; fold s'; cbn [p_tids p_ktids p_closers p_st p_bg p_w p_b p_waits s' set_call set_calls set_waits]; auto.
-      + intros u Hu. rewrite Eo by (intros ->; contradiction). auto.
-      + change (pred (p_waits s) = hsum s'). lia.
-      + intros u v Hu Hv. destruct (N.eq_dec u t) as [->|Nu]; destruct (N.eq_dec v t) as [->|Nv]; auto.
-        * rewrite Et in Hu. discriminate.
-        * rewrite Et in Hv. discriminate.
-        * rewrite Eo in Hu, Hv by assumption. auto.
-      + intros u v Hu Hv. destruct (N.eq_dec u t) as [->|Nu]; [rewrite Et in Hu; discriminate|rewrite Eo in Hu by assumption; eauto].
-      + intros Hb u. destruct (N.eq_dec u t) as [->|Nu]; [rewrite Et|rewrite Eo by assumption; auto].
-        destruct (a_n4 Hb t) as (?&?&?). unfold c'; cbn. repeat split; auto; discriminate.
-      + intros u Hu. destruct (N.eq_dec u t) as [->|Nu]; [rewrite Et in Hu; cbn in Hu; destruct Hu; discriminate|rewrite Eo in Hu by assumption; eauto].
-      + intros _ Hb. split.
-        * intros H0. repeat split; auto.
-          -- intros v. destruct (N.eq_dec v t) as [->|Nv]; [rewrite Et; reflexivity|rewrite Eo by assumption; auto].
-          -- change (1 <= hsum s')%nat. lia.
-        * intros v. destruct (N.eq_dec v t) as [->|Nv]; [rewrite Et; reflexivity|rewrite Eo by assumption].
-          destruct (sync_user (p_calls s v)) eqn:E; [|reflexivity]. apply sync_tok in E. rewrite Hnt in E by assumption. discriminate.
-      + intros Hb v. destruct (N.eq_dec v t) as [->|Nv]; [rewrite Et; reflexivity|rewrite Eo by assumption; auto].
-      + intros u. destruct (N.eq_dec u t) as [->|Nu]; [rewrite Et; cbn; rewrite Hd; contradiction|rewrite Eo by assumption; auto].
+      call_same s t (with_pc (p_calls s t) PBgAfter); fin I t Epc.
     - inversion H; subst; clear H.
       call_dec s t (with_ret (p_calls s t) (k_res (p_calls s t))); fin I t Epc.
       all: rewrite ?Hd; try lia; try reflexivity.
-      intros Hb H0 Hex. destruct st0.
-      + destruct (a_ba s I Hex Hb) as [A _]. destruct (A H0) as (A1&_). specialize (A1 t). unfold tokc in A1. rewrite Epc in A1. discriminate.
-      + destruct (a_n2 s I t (or_intror Epc)) as [K|K]; rewrite K in H0; discriminate.
   Qed.
 
   Lemma step_LCall s t cmds multi ck s' : InvA s -> pstep g s (LCall t cmds multi ck) = Some s' -> InvA s'.
@@ -739,14 +660,7 @@ Section Steps.
       + rewrite Eo in Hu, Hv by assumption. auto.
     - intros u v Hu Hv. destruct (N.eq_dec u t) as [->|Nu]; [rewrite Et in Hu; discriminate|rewrite Eo in Hu by assumption; eauto].
     - intros Hb u. destruct (N.eq_dec u t) as [->|Nu]; [rewrite Et; unfold c'; cbn; repeat split; discriminate|rewrite Eo by assumption; auto].
-    - intros u Hu. destruct (N.eq_dec u t) as [->|Nu]; [rewrite Et in Hu; cbn in Hu; destruct Hu; discriminate|rewrite Eo in Hu by assumption; eauto].
-    - intros [u Hu] Hb.
-      assert (Hex : exists v, k_pc (p_calls s v) = PBgAfter).
-      { destruct (N.eq_dec u t) as [->|Nu]; [rewrite Et in Hu; discriminate|rewrite Eo in Hu by assumption; eauto]. }
-      destruct (a_ba0 Hex Hb) as [A B]. split.
-      + intros H0. destruct (A H0) as (A1&A2&A3). repeat split; auto; [|change (1 <= hsum s')%nat; lia].
-        intros v. destruct (N.eq_dec v t) as [->|Nv]; [rewrite Et; reflexivity|rewrite Eo by assumption; auto].
-      + intros v. destruct (N.eq_dec v t) as [->|Nv]; [rewrite Et; reflexivity|rewrite Eo by assumption; auto].
+    - intros u Hu. destruct (N.eq_dec u t) as [->|Nu]; [rewrite Et in Hu; cbn in Hu; discriminate|rewrite Eo in Hu by assumption; eauto].
     - intros Hb v. destruct (N.eq_dec v t) as [->|Nv]; [rewrite Et; reflexivity|rewrite Eo by assumption; auto].
     - intros u. destruct (N.eq_dec u t) as [->|Nu]; [rewrite Et; cbn; contradiction|rewrite Eo by assumption; auto].
   Qed.
@@ -909,14 +823,7 @@ Section Steps.
       + rewrite Eo in Hu, Hv by assumption. auto.
     - intros u v Hu Hv. destruct (N.eq_dec u t) as [->|Nu]; [rewrite Et in Hu; discriminate|rewrite Eo in Hu by assumption; eauto].
     - intros Hb u. destruct (N.eq_dec u t) as [->|Nu]; [rewrite Et; cbn; repeat split; discriminate|rewrite Eo by assumption; auto].
-    - intros u Hu. destruct (N.eq_dec u t) as [->|Nu]; [rewrite Et in Hu; cbn in Hu; destruct Hu; discriminate|rewrite Eo in Hu by assumption; eauto].
-    - intros [u Hu] Hb.
-      assert (Hex : exists v, k_pc (p_calls s v) = PBgAfter).
-      { destruct (N.eq_dec u t) as [->|Nu]; [rewrite Et in Hu; discriminate|rewrite Eo in Hu by assumption; eauto]. }
-      destruct (a_ba0 Hex Hb) as [A B]. split.
-      + intros H0. destruct (A H0) as (A1&A2&A3). repeat split; auto; try lia.
-        intros v. destruct (N.eq_dec v t) as [->|Nv]; [rewrite Et; reflexivity|rewrite Eo by assumption; auto].
-      + intros v. destruct (N.eq_dec v t) as [->|Nv]; [rewrite Et; reflexivity|rewrite Eo by assumption; auto].
+    - intros u Hu. destruct (N.eq_dec u t) as [->|Nu]; [rewrite Et in Hu; cbn in Hu; discriminate|rewrite Eo in Hu by assumption; eauto].
     - intros Hb v. destruct (N.eq_dec v t) as [->|Nv]; [rewrite Et; reflexivity|rewrite Eo by assumption; auto].
     - intros u. destruct (N.eq_dec u t) as [->|Nu]; [rewrite Et; cbn; contradiction|rewrite Eo by assumption; auto].
   Qed.
@@ -977,12 +884,6 @@ Section Steps.
       + rewrite Et in Hv. eapply a_tok6; eauto.
       + rewrite Eo in Hv by assumption. eauto.
     - intros u Hu. destruct (N.eq_dec u t) as [->|Nu]; [rewrite Et in Hu; auto|rewrite Eo in Hu by assumption; eauto].
-    - intros Hex Hb. destruct (a_ba0 Hex Hb) as [A B]. split; [|assumption].
-      intros H0. destruct (A H0) as (A1&A2&A3). repeat split; auto.
-      + intros v. destruct (N.eq_dec v t) as [->|Nv]; [rewrite Et|rewrite Eo by assumption; auto].
-        destruct (tokk k') eqn:E; [|reflexivity]. rewrite <- (A2 t). symmetry. auto.
-      + destruct (Nat.lt_ge_cases (kholds k') (kholds (p_closers s t))) as [L|L]; [|lia].
-        destruct (Hdec L) as [K|K]; rewrite K in H0; discriminate.
   Qed.
 
   Lemma step_LClose1 s t s' : InvA s -> pstep g s (LClose1 t) = Some s' -> InvA s'.
@@ -1016,11 +917,6 @@ Section Steps.
       + rewrite Et in Hv. destruct (hsum_zero_notok s I' (Htok Hv)) as [K _]. rewrite K in Hu. discriminate.
       + rewrite Eo in Hv by assumption. eauto.
     - intros u Hu. destruct (N.eq_dec u t) as [->|Nu]; [rewrite Et in Hu; contradiction|rewrite Eo in Hu by assumption; eauto].
-    - intros Hex Hb. destruct (a_ba0 Hex Hb) as [A B]. split; [|assumption].
-      intros H0. destruct (A H0) as (A1&A2&A3). repeat split; auto.
-      + intros v. destruct (N.eq_dec v t) as [->|Nv]; [rewrite Et|rewrite Eo by assumption; auto].
-        destruct (tokk (K1 w)) eqn:E; [|reflexivity]. pose proof (Htok eq_refl). lia.
-      + change (1 <= hsum s')%nat. lia.
   Qed.
 
   Lemma inva_close_cas s :
@@ -1039,7 +935,6 @@ Section Steps.
     - destruct (N.eqb (p_st s) 0 || N.eqb (p_st s) 1); auto.
     - intros t Ht. apply Hcl. eauto.
     - intros t Ht. apply Hcl. eauto.
-    - intros Hex Hb. destruct (a_ba0 Hex Hb) as [A B]. split; [|assumption]. intros H0. contradiction.
   Qed.
 
   Lemma step_LClose2 s t b s' : InvA s -> pstep g s (LClose2 t b) = Some s' -> InvA s'.
